@@ -24,6 +24,7 @@ violation leaves an association that reports itself connected but can never make
             wrap-safe helpers (a counter that does not wrap leaves messages queued forever)
   C02-REINIT the cumulative TSN is only (re)initialised from INIT / INIT-ACK under an association-state guard (a duplicated
             handshake datagram must not rewind the acknowledgements)
+  C02-ABANDON (rules C06-WHOLE / RECV / ITER) abandonment and FORWARD-TSN handling leave every other message alone
   C02-DELIVER (rule C01-REASM) for every arrival order of interleaved messages on two streams nothing complete stays queued
 Does not decide: delivery within bounded time, absence of stalls (abandoned fragments of partially reliable messages are
 outside these rules, see C06).
@@ -496,3 +497,5 @@ def run(rep: Report, prog: Program, tier: str) -> None:
             rep.fail(mk_finding(prog, PROP, "C02-REINIT", rc, n, "the cumulative TSN is reset from the peer's initial TSN whatever the association state: a duplicated INIT datagram "
                                 "arriving later makes this side acknowledge from the start again, the peer discards those SACKs as stale and its data stays outstanding for ever",
                                 construct="unguarded receive-state reset"))
+    import_rules(rep, prog, tier, PROP, "C02-ABANDON", "C06", ["C06-WHOLE", "C06-RECV", "C06-ITER"],
+                 "abandoning a partially reliable message never abandons, loses or blocks chunks of other messages (rules C06-WHOLE / C06-RECV / C06-ITER)", 100)
